@@ -1,4 +1,5 @@
 import RV.Scalar
+import RV.Model.Tree
 /-
   Model of src/collision.c (+ reb_simulation_remove_particle of src/particle.c:336-446).
 
@@ -422,6 +423,13 @@ variable {K : Type} [ScalarO K]
 /-- `particles[index].y = nan("")` — the model keeps `y` and records the flag -/
 def flagPart (p : Part K) : Part K := { p with flagged := true }
 
+/-- end of `reb_collision_search` with fixes/C13-tree-merge-remove-at-boundary.diff: when a tree
+    exists and a particle was flagged in this search, `reb_simulation_update_tree` removes the
+    flagged particles.  The survivors are returned in array order; the code's order is the
+    swap-with-last order of the tree sweep (C15), so the tie compares them as a set. -/
+def purgeFlagged (s : Sim (Part K)) : Sim (Part K) :=
+  if s.tree && s.ps.any (·.flagged) then { s with ps := s.ps.filter fun p => !p.flagged } else s
+
 /-- `reb_collision_resolve_halt` (collision.c:760-765) without the status word -/
 def halt (t : K) (s : Sim (Part K)) (c : Coll (GB K)) : Sim (Part K) × Nat :=
   let ps1 := if c.p1 < 0 then s.ps else s.ps.modify c.p1.toNat (fun p => { p with lc := t })
@@ -430,8 +438,23 @@ def halt (t : K) (s : Sim (Part K)) (c : Coll (GB K)) : Sim (Part K) × Nat :=
 
 /-- the arithmetic of `reb_collision_resolve_merge` (collision.c:785, 840-848) on the survivor
     `pi` (lower index) and the absorbed `pj`; `cbrtF` is libm's `cbrt` -/
-def mergePair (cbrtF : K → K) (t : K) (pi pj : Part K) : Part K :=
+def mergePair (mid : Bool) (cbrtF : K → K) (t : K) (pi pj : Part K) : Part K :=
   let invmass := Scalar.one / (pi.m + pj.m)
+  let half : K := Scalar.one / Scalar.ofNat 2      -- the literal 0.5
+  -- `mid`: the source has the branch `if (pi->m + pj->m == 0.)` (fixes/C13-merge-massless.diff):
+  -- two massless particles merge at the midpoint instead of 0·∞
+  if mid && feq (pi.m + pj.m) Scalar.zero then
+    { pi with
+      vx := half*(pi.vx + pj.vx)
+      vy := half*(pi.vy + pj.vy)
+      vz := half*(pi.vz + pj.vz)
+      x  := half*(pi.x + pj.x)
+      y  := half*(pi.y + pj.y)
+      z  := half*(pi.z + pj.z)
+      m  := pi.m + pj.m
+      r  := cbrtF (pi.r*pi.r*pi.r + pj.r*pj.r*pj.r)
+      lc := t }
+  else
   { pi with
     vx := (pi.vx*pi.m + pj.vx*pj.m)*invmass
     vy := (pi.vy*pi.m + pj.vy*pj.m)*invmass
@@ -446,7 +469,7 @@ def mergePair (cbrtF : K → K) (t : K) (pi pj : Part K) : Part K :=
 /-- `reb_collision_resolve_merge` (collision.c:767-875) with `track_energy_offset == 0`.
     An index outside the array is undefined behaviour in C; the model returns 0 there and
     `c13_fixup_*` shows the driver never produces one. -/
-def merge (cbrtF : K → K) (t : K) (s : Sim (Part K)) (c : Coll (GB K)) : Sim (Part K) × Nat :=
+def merge (mid : Bool) (cbrtF : K → K) (t : K) (s : Sim (Part K)) (c : Coll (GB K)) : Sim (Part K) × Nat :=
   match lookup s c.p1, lookup s c.p2 with
   | some q1, some q2 =>
     if feq q1.lc t || feq q2.lc t then (s, 0)
@@ -456,7 +479,7 @@ def merge (cbrtF : K → K) (t : K) (s : Sim (Part K)) (c : Coll (GB K)) : Sim (
       let i := if swap then c.p2 else c.p1
       let pi := if swap then q2 else q1
       let pj := if swap then q1 else q2
-      ({ s with ps := s.ps.set i.toNat (mergePair cbrtF t pi pj) }, if swap then 1 else 2)
+      ({ s with ps := s.ps.set i.toNat (mergePair mid cbrtF t pi pj) }, if swap then 1 else 2)
   | _, _ => (s, 0)
 
 /-- libm functions used by the hard-sphere resolver -/
@@ -508,15 +531,18 @@ def hsDvx2 (eps mcv rr vn : K) (p1 p2 : Part K) : K :=
 
 /-- velocity update of the pair for a given impulse `dvx2` along the axis with direction
     cosines `(cp, sp*ct, sp*st)` (collision.c:725-747); returns the new (p1, p2) -/
-def hsApply (st ct sp cp dvx2 t : K) (p1 p2 : Part K) (tgt1 tgt2 : Part K) : Part K × Part K :=
+def hsApply (eqm : Bool) (st ct sp cp dvx2 t : K) (p1 p2 : Part K) (tgt1 tgt2 : Part K) : Part K × Part K :=
   let dvx2n := cp * dvx2
   let dvy2n := sp * dvx2
   let dvy2nn := ct * dvy2n
   let dvz2nn := st * dvy2n
-  let p2pf := p1.m/(p1.m + p2.m)
+  -- `eqm`: the source has `(p1.m+p2.m==0.) ? 0.5 : …` (fixes/C13-hardsphere-massless.diff)
+  let half : K := Scalar.one / Scalar.ofNat 2
+  let massless := eqm && feq (p1.m + p2.m) Scalar.zero
+  let p2pf := if massless then half else p1.m/(p1.m + p2.m)
   let n2 := { tgt2 with vx := tgt2.vx - p2pf*dvx2n, vy := tgt2.vy - p2pf*dvy2nn,
                         vz := tgt2.vz - p2pf*dvz2nn, lc := t }
-  let p1pf := p2.m/(p1.m + p2.m)
+  let p1pf := if massless then half else p2.m/(p1.m + p2.m)
   let n1 := { tgt1 with vx := tgt1.vx + p1pf*dvx2n, vy := tgt1.vy + p1pf*dvy2nn,
                         vz := tgt1.vz + p1pf*dvz2nn, lc := t }
   (n1, n2)
@@ -524,13 +550,13 @@ def hsApply (st ct sp cp dvx2 t : K) (p1 p2 : Part K) (tgt1 tgt2 : Part K) : Par
 /-- the pair update of `reb_collision_resolve_hardsphere` for given rotation sines/cosines
     `st ct sp cp`, given `rr = sqrt(|x21|²)` and restitution function `epsF`;
     `none` = early return (no overlap / not approaching) -/
-def hsPair (st ct sp cp rr mcv t : K) (epsF : K → K) (gb : GB K) (p1 p2 : Part K) :
+def hsPair (eqm : Bool) (st ct sp cp rr mcv t : K) (epsF : K → K) (gb : GB K) (p1 p2 : Part K) :
     Option (Part K × Part K) :=
   let q := relOf p1 p2 gb
   if hsActs p1 p2 q then
     let vn := hsVn st ct sp cp q
     let dvx2 := hsDvx2 (epsF vn) mcv rr vn p1 p2
-    some (hsApply st ct sp cp dvx2 t p1 p2 p1 p2)
+    some (hsApply eqm st ct sp cp dvx2 t p1 p2 p1 p2)
   else none
 
 /-- the angles as the C code computes them (collision.c:699-708, 720) -/
@@ -547,12 +573,12 @@ def hsAngles (T : Trig K) (q : Rel K) : K × K × K × K × K :=
 
 /-- `reb_collision_resolve_hardsphere` (collision.c:664-758) without the `collisions_plog`
     diagnostics.  Writes p2 first, then p1, as the C code does. -/
-def hardsphere (T : Trig K) (mcv t : K) (epsF : K → K) (s : Sim (Part K)) (c : Coll (GB K)) :
+def hardsphere (eqm : Bool) (T : Trig K) (mcv t : K) (epsF : K → K) (s : Sim (Part K)) (c : Coll (GB K)) :
     Sim (Part K) × Nat :=
   match lookup s c.p1, lookup s c.p2 with
   | some p1, some p2 =>
     let (st, ct, sp, cp, rr) := hsAngles T (relOf p1 p2 c.gb)
-    match hsPair st ct sp cp rr mcv t epsF c.gb p1 p2 with
+    match hsPair eqm st ct sp cp rr mcv t epsF c.gb p1 p2 with
     | some (n1, n2) =>
       ({ s with ps := (s.ps.set c.p2.toNat n2).set c.p1.toNat n1 }, 0)
     | none => (s, 0)
@@ -560,9 +586,13 @@ def hardsphere (T : Trig K) (mcv t : K) (epsF : K → K) (s : Sim (Part K)) (c :
 
 end resolvers
 
-/-! ## §5 tree pruning test -/
+/-! ## §5 tree searches (collision.c:240-362, 512-659, as repaired by 8402256, c3afa2d, 5a2eb94)
+
+  The oct-tree is the one of Model/Tree (C15): `T K` with cells `(x,y,z,w)`; the walks visit
+  the octants in index order 0..7 as the C loops do.  `P q` is `particles[q]`. -/
 section prune
 variable {K : Type} [ScalarO K]
+open RV.Tree (T)
 
 /-- collision.c:579-585: does the walk descend into the non-leaf cell with centre `c`, width `w`?
     `g` = ghost-shifted position of p1, `sqrt3half = 0.86602540378443` -/
@@ -573,6 +603,75 @@ def descends (sqrt3half maxRadius1 p1r w : K) (gx gy gz cx cy cz : K) : Bool :=
   let r2 := dx*dx + dy*dy + dz*dz
   let rp := p1r + maxRadius1 + sqrt3half*w
   ScalarO.lt r2 (rp*rp)
+
+/-- the same test of the LINETREE walk (collision.c:672-679):
+    `rp = p1_r_plus_dtv + max_radius1 + maxdrift + 0.866*w` -/
+def descendsLine (sqrt3half maxRadius1 p1rdtv maxdrift w : K) (gx gy gz cx cy cz : K) : Bool :=
+  let dx := gx - cx
+  let dy := gy - cy
+  let dz := gz - cz
+  let r2 := dx*dx + dy*dy + dz*dz
+  let rp := p1rdtv + maxRadius1 + maxdrift + sqrt3half*w
+  ScalarO.lt r2 (rp*rp)
+
+/-- the scan of `reb_collision_update_max_radius`: (largest, second largest) so far -/
+def scanMaxRadius : K × K → List K → K × K
+  | m, [] => m
+  | (m0, m1), r :: rest =>
+    if ScalarO.le m0 r then scanMaxRadius (r, m0) rest            -- `radius>=max_radius0`
+    else if ScalarO.le m1 r then scanMaxRadius (m0, r) rest       -- `radius>=max_radius1`
+    else scanMaxRadius (m0, m1) rest
+
+/-- `reb_collision_update_max_radius`: never decreases the stored values -/
+def updateMaxRadius (old0 old1 : K) (radii : List K) : K × K :=
+  let m := scanMaxRadius (Scalar.zero, Scalar.zero) radii
+  (cmax old0 m.1, cmax old1 m.2)
+
+/-- `reb_tree_get_nearest_neighbour_in_cell` for particle `i` (radius `r1`, ghost-shifted state
+    `g`, unshifted ghost box `gborig`): the entries appended to the collision array, in order -/
+def treeWalk (k maxR1 : K) (P : Nat → Part K) (gborig g : GB K) (i : Nat) (r1 : K) :
+    T K → List (Coll (GB K))
+  | .nil => []
+  | .leaf _ _ q =>
+    if q == i then []                                   -- `c->pt != collision_nearest->p1`
+    else if directHit g r1 (P q) then [⟨(i : Int), (q : Int), gborig⟩] else []
+  | .node c _ _ ch =>
+    if descends k maxR1 r1 c.w g.x g.y g.z c.x c.y c.z then
+      (List.finRange 8).flatMap fun o => treeWalk k maxR1 P gborig g i r1 (ch o)
+    else []
+
+/-- `reb_tree_check_for_overlapping_trajectories_in_cell` -/
+def lineTreeWalk (k maxR1 dt maxdrift : K) (P : Nat → Part K) (gborig g : GB K) (i : Nat)
+    (r1 r1dtv : K) : T K → List (Coll (GB K))
+  | .nil => []
+  | .leaf _ _ q =>
+    if q == i then []
+    else if lineHit dt g r1 (P q) then [⟨(i : Int), (q : Int), gborig⟩] else []
+  | .node c _ _ ch =>
+    if descendsLine k maxR1 r1dtv maxdrift c.w g.x g.y g.z c.x c.y c.z then
+      (List.finRange 8).flatMap fun o => lineTreeWalk k maxR1 dt maxdrift P gborig g i r1 r1dtv (ch o)
+    else []
+
+/-- TREE search (collision.c:282-327): particles outermost, then ghost boxes, then root boxes -/
+def treeSearch (k maxR1 : K) (ring : List (GB K)) (P : Nat → Part K) (n : Nat)
+    (roots : List (T K)) : List (Coll (GB K)) :=
+  (List.range n).flatMap fun i => ring.flatMap fun gb => roots.flatMap fun t =>
+    treeWalk k maxR1 P gb (shiftGB gb (P i)) i (P i).r t
+
+/-- `vmax2 = MAX(vmax2, vx²+vy²+vz²)` over all particles (collision.c:332-336) -/
+def vmax2 (P : Nat → Part K) (n : Nat) : K :=
+  (List.range n).foldl (fun a i =>
+    cmax a ((P i).vx*(P i).vx + (P i).vy*(P i).vy + (P i).vz*(P i).vz)) Scalar.zero
+
+/-- LINETREE search (collision.c:329-389); `sqrtF`, `fabsF` are libm's -/
+def lineTreeSearch (sqrtF fabsF : K → K) (k maxR1 dt : K) (ring : List (GB K)) (P : Nat → Part K)
+    (n : Nat) (roots : List (T K)) : List (Coll (GB K)) :=
+  let maxdrift := fabsF dt * sqrtF (vmax2 P n)
+  (List.range n).flatMap fun i =>
+    let p1 := P i
+    let r1dtv := p1.r + fabsF dt * sqrtF (p1.vx*p1.vx + p1.vy*p1.vy + p1.vz*p1.vz)
+    ring.flatMap fun gb => roots.flatMap fun t =>
+      lineTreeWalk k maxR1 dt maxdrift P gb (shiftGB gb p1) i p1.r r1dtv t
 
 end prune
 
